@@ -2,6 +2,8 @@
 #include <stdio.h>
 #include <string.h>
 
+#include <algorithm>
+#include <utility>
 #include <vector>
 
 #include "../rt/sim_api.h"
@@ -17,6 +19,7 @@ struct Call
   long long count;
   std::vector<unsigned char> hits;
   std::vector<unsigned char> block_mark;
+  std::vector<std::pair<unsigned long long, unsigned long long>> wide;  // BLOCKS_WIDE: the announced blocks
   bool returned;
   int active;
   long long invocations;
@@ -25,12 +28,12 @@ struct Call
 };
 std::vector<Call> *calls;
 
-enum { P_MULTI_THREAD = 0, P_NEGATIVE, P_ZERO, P_NESTED, P_TYPE_MAX, P_PARTIAL_LAST_BLOCK, P_FROM_TASK, P_COUNT_GT_THREADS, P_PREFILL, P_THROWING_BODY };
+enum { P_MULTI_THREAD = 0, P_NEGATIVE, P_ZERO, P_NESTED, P_TYPE_MAX, P_PARTIAL_LAST_BLOCK, P_FROM_TASK, P_COUNT_GT_THREADS, P_PREFILL, P_THROWING_BODY, P_WIDE, P_WIDE_ABOVE_32BIT };
 const char *probe_names[] = {"call_executed_by_more_than_one_thread", "negative_count", "zero_count", "nested_call", "count_is_type_maximum",
-                             "last_block_partial", "call_from_inside_task", "count_far_above_thread_count", "scheduled_closures_ran", "loop_with_a_throwing_body_planned", nullptr};
+                             "last_block_partial", "call_from_inside_task", "count_far_above_thread_count", "scheduled_closures_ran", "loop_with_a_throwing_body_planned", "blocks_of_2^30_or_more", "wide_blocks_count_above_2^32", nullptr};
 const char *no_faults[] = {nullptr};
 const char *tyname[] = {"unsigned char", "short", "int", "unsigned", "long", "long long", "unsigned long long", "size_t"};
-const char *apiname[] = {"parallel_for", "parallel_foreach(container)", "parallel_foreach(iterators)", "parallel_in_blocks_of", "parallel_foreach(std::deque)"};
+const char *apiname[] = {"parallel_for", "parallel_foreach(container)", "parallel_foreach(iterators)", "parallel_in_blocks_of", "parallel_foreach(std::deque)", "parallel_in_blocks_of(wide)"};
 
 int blockers_started, blockers_released;
 void reset()
@@ -84,10 +87,10 @@ void do_plan(int tier)
   long long total = 0;
   for (int i = 0; i < plan.ncalls; i++) {
     C01Call &c = plan.calls[i];
-    unsigned a = sim_plan(7);
-    c.api = a < 3 ? C01_FOR : (a == 3 ? C01_FOREACH_CONT : (a == 4 ? C01_FOREACH_IT : (a == 5 ? C01_BLOCKS : C01_FOREACH_DEQUE)));
+    unsigned a = sim_plan(8);
+    c.api = a < 3 ? C01_FOR : (a == 3 ? C01_FOREACH_CONT : (a == 4 ? C01_FOREACH_IT : (a == 5 ? C01_BLOCKS : (a == 6 ? C01_FOREACH_DEQUE : C01_BLOCKS_WIDE))));
     c.itype = (int)sim_plan(8);
-    if (c.api == C01_BLOCKS && c.itype < 2)
+    if ((c.api == C01_BLOCKS_WIDE || (c.api == C01_BLOCKS && !c01_small_index_blocks())) && c.itype < 2)
       c.itype = 2 + (int)sim_plan(6);
     static const int blocks[] = {1, 3, 16, 64};
     c.block = blocks[sim_plan(4)];
@@ -95,14 +98,22 @@ void do_plan(int tier)
     c.count = pick_count(foreach_api ? 7 : c.itype, nth, tier, !foreach_api, false);
     if (foreach_api && c.count == 0)
       c.count = 1;
+    if (c.api == C01_BLOCKS_WIDE) {
+      // at most 9 blocks, whatever the count
+      c.block = sim_plan(2) ? 2147483647 : (1 << 30);
+      static const long long c_int[] = {2147483647LL, 2147483646LL, (1LL << 30) + 1, 1LL << 30, (1LL << 30) - 1, 5};
+      static const long long c_uint[] = {4294967295LL, 1LL << 31, 3000000000LL, 3LL << 30, (1LL << 31) - 1, 7};
+      static const long long c_64[] = {(1LL << 32) + 5, (1LL << 33) - 1, 3 * 2147483647LL + 1, 1LL << 32, 1LL << 31, 1};
+      c.count = (c.itype == 2 ? c_int : c.itype == 3 ? c_uint : c_64)[sim_plan(6)];
+    }
     c.cost_mod = 1 + (int)sim_plan(4);
     c.cost = c.count > 300 ? 0 : (int)sim_plan(4);
     c.nested_at = -1;
-    if (c.count > 0 && c.count <= 64 && sim_plan(4) == 0) {
+    if (c.api != C01_BLOCKS_WIDE && c.count > 0 && c.count <= 64 && sim_plan(4) == 0) {
       c.nested_at = (int)sim_plan((uint32_t)c.count);
       unsigned ia = sim_plan(4);
       c.inner_api = ia < 2 ? C01_FOR : (ia == 2 ? C01_FOREACH_CONT : C01_BLOCKS);
-      c.inner_itype = 2 + (int)sim_plan(6);
+      c.inner_itype = c01_small_index_blocks() ? (int)sim_plan(8) : 2 + (int)sim_plan(6);
       c.inner_block = blocks[sim_plan(4)];
       c.inner_count = pick_count(c.inner_itype, nth, tier, c.inner_api != C01_FOREACH_CONT, true);
       if (c.inner_api == C01_FOREACH_CONT && c.inner_count <= 0)
@@ -123,7 +134,7 @@ void do_plan(int tier)
     if (c.prefill && (lane == LANE_INTERNAL) && plan.init_threads > 1)
       c.prefill_block = (int)sim_plan(2);
     c.from_task_n = 2 + (int)sim_plan(3);
-    total += c.count > 0 ? c.count : 0;
+    total += c.count > 0 && c.api != C01_BLOCKS_WIDE ? c.count : 0;
   }
   sim_set_step_cap(total > 2000 ? 4000000 : 1200000);
 }
@@ -181,8 +192,11 @@ int c01_call_begin(int api, int itype, long long count, int block, int nested)
   c.block = block;
   c.nested = nested;
   c.count = count;
-  c.hits.assign((size_t)(count > 0 ? count : 0), 0);
-  c.block_mark.assign((size_t)(count > 0 ? count : 0), 0);
+  const bool wide = api == C01_BLOCKS_WIDE;
+  c.hits.assign((size_t)(count > 0 && !wide ? count : 0), 0);
+  c.block_mark.assign((size_t)(count > 0 && !wide ? count : 0), 0);
+  if (wide)
+    sim_probe(count > (1LL << 32) ? P_WIDE_ABOVE_32BIT : P_WIDE);
   c.returned = false;
   c.active = 0;
   c.invocations = 0;
@@ -201,7 +215,7 @@ int c01_call_begin(int api, int itype, long long count, int block, int nested)
     sim_probe(P_TYPE_MAX);
   if (api == C01_BLOCKS && count > 0 && count % block)
     sim_probe(P_PARTIAL_LAST_BLOCK);
-  if (plan.init_threads && count > 8LL * plan.init_threads)
+  if (plan.init_threads && count > 8LL * plan.init_threads && !wide)
     sim_probe(P_COUNT_GT_THREADS);
   if (sim_self() != 0)
     sim_probe(P_FROM_TASK);
@@ -217,7 +231,24 @@ void c01_call_end(int h)
   if (c.active)
     sim_fail("C01:returned-while-body-running", "call %d (%s, count %lld) returned while %d invocations are still executing", h, apiname[c.api],
              c.count, c.active);
-  for (long long i = 0; i < c.count; i++)
+  if (c.api == C01_BLOCKS_WIDE) {
+    // the announced blocks, in index order, must tile [0,count) exactly
+    std::sort(c.wide.begin(), c.wide.end());
+    unsigned long long at = 0;
+    for (size_t k = 0; k < c.wide.size(); k++) {
+      if (c.wide[k].first != at) {
+        sim_fail("C01:blocks-do-not-partition-range", "call %d (parallel_in_blocks_of<%d>, %s, count %lld): %s [%llu,%llu) in the announced blocks", h,
+                 c.block, tyname[c.itype], c.count, c.wide[k].first < at ? "overlap before" : "gap", c.wide[k].first < at ? c.wide[k].first : at,
+                 c.wide[k].first < at ? at : c.wide[k].first);
+        break;
+      }
+      at = c.wide[k].second;
+    }
+    if (at != (unsigned long long)c.count && !sim_failed())
+      sim_fail("C01:index-not-invoked", "call %d (parallel_in_blocks_of<%d>, %s, count %lld): %zu blocks were invoked, they end at %llu", h, c.block,
+               tyname[c.itype], c.count, c.wide.size(), at);
+  }
+  for (long long i = 0; i < c.count && c.api != C01_BLOCKS_WIDE; i++)
     if (c.hits[(size_t)i] != 1) {
       sim_fail("C01:index-not-invoked", "call %d (%s<%s>, count %lld): index %lld invoked %d times when the call returned", h, apiname[c.api],
                tyname[c.itype], c.count, i, (int)c.hits[(size_t)i]);
@@ -285,6 +316,31 @@ int c01_block(int h, long long begin, long long end)
     c.block_mark[(size_t)i] = 1;
   }
   return 1;
+}
+
+void c01_wide_block(int h, unsigned long long begin, unsigned long long end, int is_signed)
+{
+  SimOracleScope os;
+  Call &c = (*calls)[(size_t)h];
+  sim_event(106, (uint64_t)begin, (uint64_t)end);
+  c.invocations++;
+  c.active++;
+  int tid = sim_self();
+  if (c.first_tid < 0)
+    c.first_tid = tid;
+  else if (tid != c.first_tid)
+    c.multi_thread = true;
+  if (c.returned)
+    sim_fail("C01:body-after-return", "call %d: block [%llu,%llu) invoked after the call returned", h, begin, end);
+  if (c.count <= 0)
+    sim_fail("C01:invoked-for-nonpositive-count", "call %d: count %lld must invoke nothing, but a block was invoked", h, c.count);
+  bool negative = is_signed && ((long long)begin < 0 || (long long)end < 0);
+  if (negative || end > (unsigned long long)c.count || begin >= end)
+    sim_fail("C01:block-out-of-range", "call %d (parallel_in_blocks_of<%d>, %s, count %lld): block [%lld,%lld)", h, c.block, tyname[c.itype], c.count,
+             (long long)begin, (long long)end);
+  if (end - begin > (unsigned long long)c.block)
+    sim_fail("C01:block-too-large", "call %d: block [%llu,%llu) larger than block size %d", h, begin, end, c.block);
+  c.wide.push_back(std::make_pair(begin, end));
 }
 
 void c01_body_exit(int h)
